@@ -29,7 +29,8 @@ reg(Prop(
          'distinct = hash of (shape, vector).'
          ' Every shape first builds a decoy twin of the same static type with other run-time names and parses with it once (state the library keeps per parser type instead of per object is then wrong for the judged parser). Two sum shapes use the same letters as a long option name and as a short flag name.'
          ' Flags with double values whose two values print alike (0.1 + 0.2 and 0.3): a well-formed definition must be constructible.'
-         ' A strictly typed many() with a laxer positional consumer to its right (three shapes): a token the typed argument cannot convert is a hard error of that round.',
+         ' A strictly typed many() with a laxer positional consumer to its right (three shapes): a token the typed argument cannot convert is a hard error of that round.'
+         ' A type-erased (make_base) parser holding a positional next to a value-taking option outside of it, both orders.',
     assumptions=COMMON_ASSUMPTIONS + [
         'choices the documentation leaves open are adopted from the implementation and not judged: the long spelling is looked up before the short one, the first occurrence of a spelling is the one consumed, every token beginning with - is flag-like (never positional), an option\'s value is whatever token follows its name',
         'leaf conversion of a token is fcppt::extract_from_string in both worlds (judged by C15/C01)',
